@@ -1,11 +1,14 @@
 From Coq Require Import ZArith List String.
 From FV Require Import Base.Ser Base.Res C04.Model.
+From FV Require C04.ModelTriplet.
 Import ListNotations.
 Open Scope string_scope.
 Definition reg : registry := [
   ("calcChecksum", run1 calcChecksum);
   ("getSearchRange", run2 getSearchRange);
   ("maxPowerOfTwo", run1 maxPowerOfTwo);
-  ("write_sfnt", run3 write_sfnt)
+  ("write_sfnt", run3 write_sfnt);
+  ("encodeTriplets", run1 ModelTriplet.encodeTriplets);
+  ("decodeTriplets", run3 ModelTriplet.decodeTriplets)
 ].
 Definition fv_entry := dispatch reg.
